@@ -4,8 +4,8 @@ CONSTANTS
   Solvers_ = {"lu", "lu_factors", "gmres", "cg"}
   DualDims = {2}
   SliceBy = "global"
-  SwapBlockedSettings = TRUE
-  DtypeRule = "all"
+  SwapBlockedSettings = FALSE
+  DtypeRule = "last"
   EmitJson = FALSE
 INVARIANT RhsLayout
 INVARIANT SolutionLayout
